@@ -8,21 +8,22 @@ from gv.model import dbutil
 
 ID = "C06"
 RULE = (
-    "Four memoised real file databases: A holds one feature on seqid c1 for every pair start<=end of the bin-boundary coordinate set "
-    "(20 coordinates quick / 34 thorough: 1, 2, 5, 2^k+d for k in {17,20,23,26} and 2^29+d with |d|<=1 quick / <=2 thorough, plus a few "
-    "multiples; 215 / 600 features incl. 5 on seqid c2; strands cycle +,-,.; types cycle gene/exon; all are children of one root R and "
-    "parents of one leaf L); B every interval over positions 1..6 on a seqid containing . - | _; T = A's features written at a "
-    "placeholder position and moved to their coordinates by a create_db transform; G = B's intervals imported by the GTF importer "
-    "(inference off). Shards: A and B x 13 call forms x (for A) the query start; T x forms {kwargs, all_features, children} x query "
-    "start; G x the 10 forms other than children/parents/interleaved. Per shard every query end >= start x completely_within x strand "
-    "{None,'+'} (B, G also '.') x featuretype {None,'exon',('exon','gene')}. Call forms: region by kwargs, tuple, string, Feature (also "
-    "one moved to the interval after construction), seqid omitted, start only, end only, limit= of all_features (tuple and string), "
+    "Four memoised file databases: A holds one feature on seqid c1 for every pair start<=end of the bin-boundary coordinate set (20 "
+    "coordinates quick / 34 thorough: 1, 2, 5, 2^k+d for k in {17,20,23,26} and 2^29+d with |d|<=1 quick / <=2 thorough, plus a few "
+    "multiples; 215 / 600 features incl. 5 on seqid c2; strands cycle +,-,.; types gene/exon; all are children of one root R and "
+    "parents of one leaf L that also names R (related at levels 1 and 2)); B every interval over positions 1..6 on a seqid containing . "
+    "- | _; T = A's features written at a placeholder position and moved by a create_db transform; G = B's intervals imported by the "
+    "GTF importer (inference off). Shards: A and B x 13 call forms x (for A) the query start; T x forms {kwargs, all_features, "
+    "children} x query start; G x the 10 forms other than children/parents/interleaved. Per shard every query end >= start x "
+    "completely_within x strand {None,'+'} (B, G also '.') x featuretype {None,'exon',('exon','gene')}. Call forms: region by kwargs, "
+    "tuple, string (the strand written into it, 'seqid:start-end:strand', when given with completely_within), Feature (also one moved "
+    "to the interval after construction), seqid omitted, start only, end only, limit= of all_features (tuple and string), "
     "features_of_type, children, parents (limit as tuple or string), and two region() results consumed interleaved. Each answer is "
-    "compared with a brute-force scan (query-result-differs; region(Feature) accepted under both strand readings), must contain no "
-    "feature twice; for region kwargs, all_features and features_of_type the fully positional call must equal the keyword call; "
-    "one-sided forms are checked with must-return / may-return bounds; interleaved results must equal the separately consumed ones. "
-    "Non-trivial = the expected answer (one-sided: the must-return set) is neither empty nor everything. In the keyword form "
-    "completely_within is only named when True (overlap is the documented default)."
+    "compared with a brute-force scan (region(Feature) accepted under both strand readings), must contain no feature twice (R and L "
+    "included); for region kwargs, all_features and features_of_type the fully positional call must equal the keyword call; one-sided "
+    "forms are checked with must-return / may-return bounds; interleaved results must equal the separate ones. Non-trivial = the "
+    "expected answer (one-sided: the must-return set) is neither empty nor everything. In the keyword form completely_within is only "
+    "named when True (overlap is the documented default)."
 )
 ASSUMPTIONS = [
     "for region(Feature) the strand is accepted under both readings (ignored per the docstring, or taken from the feature per the code)",
